@@ -79,6 +79,14 @@ CHECKS = {
   "exhaustive enumeration of per-tick production patterns on the production polling loop under a mock clock, with a reference predictor",
   "The real Subscriber.run goroutine is driven tick by tick under a mock clock (handshake through the gauge it records right after re-arming its timer): every sequence of 3 (4) ticks over {0,1,2,5 certificates} x {local, via peer} x request time {0, 1/4, 1 interval} plus failing peers, for three (min, initial, max) settings and 1-2 peers; a polling round must report exactly the store advance, and the wait must be the predicted interval (independent predictor fed with the true advance) extended by at most the request time and half the interval; long steady / bursty / stalled runs must settle near the production period and never pin to min or max.",
   "mocknet + mock clock; unexported run/poll reached through an injected accessor; reference predictor mirrors predictor.go", "DESIGN §3 C20"),
+ "C18": (True, "chainexmc", "model_checking",
+  "explicit-state BFS over lookup / broadcast / flood / prune histories on the real chain exchange with property-level monitors",
+  "Breadth-first search to depth 5 (thorough 7) over histories of lookups, own broadcasts, admitted remote broadcasts, remote broadcasts rejected for every reason in the statement, floods of capacity+1 unsolicited chains, prunes and a progress change on the real PubSubChainExchange (validator and caching routines called synchronously), deduplicated on both LRU caches in order: a lookup never returns a chain with another key or an unadmitted/pruned chain, every prefix is retrievable right after admission, inadmissible broadcasts are never admitted, an asked-for chain that was admitted survives floods while the wanted capacity holds, pruning removes exactly the lower instances.",
+  "no network: validator and caching routines driven through an injected accessor; sequential histories only (the lookup-vs-admit interleavings are not explored); mock clock", "DESIGN §3 C18"),
+ "C14": (True, "encenum", "exploration",
+  "bounded-exhaustive enumeration of single-field perturbations of signed payloads for every chain length, and of all truncations / small byte deviations of valid encodings of every codec type",
+  "For every chain length 1..128 every single-field perturbation of every tipset and payload field (and the VRF inputs) must change the bytes to sign, pairwise; chain keys computed directly, in batch and from cached prefixes must agree for every prefix of every length; 23 wire/storage shapes at boundary sizes round-trip deterministically through CBOR and ZSTD; every truncation, every 1-byte deviation (dense) and 2-byte boundary deviations (small encodings) of each valid encoding, inflated length headers at every position (16 MiB allocation cap) and over-expanding or corrupted ZSTD frames must decode to an error or a value without panicking.",
+  "the 'coverage-guided mutation' clause of the quantifier is fuzzing, a different technique: it is replaced by the exhaustive small-deviation neighbourhood of valid encodings", "DESIGN §3 C14"),
 }
 
 ALL = ["C%02d" % i for i in range(1, 21)]
